@@ -442,10 +442,8 @@ def s8_bytes_mul():
         n = realize(n)
         if not isinstance(n, int):
             return NotImplemented
-        out = self[:0]
-        for _ in range(max(n, 0)):
-            out = out + self
-        return out
+        items = list(self) * max(n, 0)          # flat list of (symbolic) octets: no nesting of concatenations
+        return bytearray(items) if isinstance(self, bl.SymbolicByteArray) else bytes(items)
     for c in (bl.SymbolicBytes, bl.SymbolicByteArray):
         c.__mul__ = bytes_mul
         c.__rmul__ = bytes_mul
